@@ -119,6 +119,7 @@ type dataFamily struct {
 	lastFlushTime  int64
 	interval       timeutil.Interval
 	mutex          sync.Mutex
+	writeMutex     sync.Mutex // serializes the writers of memory database
 	// replica write = ValidateSequence -> write rows -> CommitSequence, the memory database which is switched
 	// for flushing must contain the rows of committed sequences only, and all of them.
 	replicaWrites int        // number of replica writes in flight
@@ -582,6 +583,11 @@ func (f *dataFamily) WriteRows(rows []*metric.StorageRow) error {
 	if len(rows) == 0 {
 		return nil
 	}
+
+	// NOTE: memory database(write buffer/time series index) is written by single goroutine, but each write ahead
+	// log of the family(one for each leader, e.g. after leader changed) is replicated by its own goroutine.
+	f.writeMutex.Lock()
+	defer f.writeMutex.Unlock()
 
 	db, err := f.GetOrCreateMemoryDatabase(f.familyTime)
 	if err != nil {
